@@ -137,6 +137,11 @@ class _Clock:
     def monotonic(self):
         return self._now()
 
+    def time(self):
+        return _EPOCH + self._now()
+
+    __name__ = "time"
+
     def __getattr__(self, k):
         return getattr(self._real, k)
 
@@ -146,29 +151,58 @@ _TIME_MODULES = ["geckolib.driver.udp_protocol_handler", "geckolib.async_locator
                  "geckolib.automation.async_facade", "geckolib.automation.facade"]
 
 
+_EPOCH = 1_700_000_000.0       # wall-clock reading at virtual time 0 (any fixed instant)
+
+
+def _virtual_datetime(now):
+    """a datetime class whose now() / utcnow() follow the virtual clock (for code that measures elapsed time on the wall clock)"""
+    import datetime as _dt
+
+    class VDateTime(_dt.datetime):
+        @classmethod
+        def now(cls, tz=None):
+            return _dt.datetime.fromtimestamp(_EPOCH + now(), tz)
+
+        @classmethod
+        def utcnow(cls):
+            return _dt.datetime.fromtimestamp(_EPOCH + now(), _dt.timezone.utc).replace(tzinfo=None)
+    return VDateTime
+
+
 class patch_time:
-    """context manager: geckolib reads `now()` instead of time.monotonic()"""
+    """context manager: EVERY clock geckolib can read follows `now()`: time.monotonic() / time.time() of the modules that import
+    `time`, and datetime.now() / utcnow() of every geckolib module that imported the datetime class (so that a library measuring
+    elapsed time on the wall clock is judged on the same clock as one that uses the monotonic one)"""
 
     def __init__(self, now):
         self.now = now
         self.saved = []
 
     def __enter__(self):
+        import datetime as _dt
         import importlib
+        import sys
         import time as real
         for m in _TIME_MODULES:
             try:
-                mod = importlib.import_module(m)
+                importlib.import_module(m)
             except Exception:
                 continue
-            if isinstance(getattr(mod, "time", None), (types.ModuleType, _Clock)):
-                self.saved.append((mod, mod.time))
+        vdt = _virtual_datetime(self.now)
+        for name, mod in list(sys.modules.items()):
+            if not name.startswith("geckolib") or mod is None or ".packs." in name:
+                continue
+            if isinstance(getattr(mod, "time", None), (types.ModuleType, _Clock)) and getattr(getattr(mod, "time"), "__name__", "time") == "time":
+                self.saved.append((mod, "time", mod.time))
                 mod.time = _Clock(real, self.now)
+            if getattr(mod, "datetime", None) is _dt.datetime:
+                self.saved.append((mod, "datetime", mod.datetime))
+                mod.datetime = vdt
         return self
 
     def __exit__(self, *a):
-        for mod, t in self.saved:
-            mod.time = t
+        for mod, attr, t in self.saved:
+            setattr(mod, attr, t)
 
 
 def reset_config():
